@@ -111,6 +111,13 @@ def handle (j : Json) : Except String Json := do
   | "register" =>
     let tps ← (← getArr j "tps").toList.mapM parseTP
     pure (Json.mkObj [("triggers", Json.arr ((registerAll tps).map optTriggerJ).toArray)])
+  | "register_phases" =>
+    -- the custom list after the registrations and after each unregister: the live registrations, in order
+    let tps ← (← getArr j "tps").toList.mapM parseTP
+    let lives ← (← getArr j "lives").toList.mapM (fun l => do (← l.getArr?).toList.mapM (fun i => i.getNat?))
+    let phases := lives.map (fun idxs =>
+      Json.arr ((registerAll (idxs.filterMap (fun i => tps[i]?))).map optTriggerJ).toArray)
+    pure (Json.mkObj [("phases", Json.arr phases.toArray)])
   | _ => throw s!"unknown op {op}"
 
 def main : IO Unit := serve handle
